@@ -2,7 +2,7 @@
 import ast
 
 from ..model import AnalysisError, dotted, unparse
-from ..util import FACTS, FACTS_I, U, enum_paths, walk_no_nested, is_yield_call, is_socket_recv
+from ..util import resolved_text, FACTS, FACTS_I, U, enum_paths, walk_no_nested, is_yield_call, is_socket_recv
 from ..paths import call_attr, call_name, fmt_path
 from .c02 import io_raises, ensures_closed
 from . import c02
@@ -253,6 +253,7 @@ def r4(ctx):
     ctx.ob('C08.R4', sd, 'nothing in shutdown yields or blocks', not ys, 'blocking/yielding calls in _Shutdown: %s' % ys,
            why + ' (a blocking kill of the greenlet list throws GreenletExit into the calling loop itself and aborts the shutdown half-way)')
     kills = [e.node for e in ev if e.kind == 'call' and call_attr(e.node) in ('kill', 'killall')]
+    kills += [e.node for e in ev if e.kind in ('for_iter', 'for_done') and '_greenlets' in U(e.node.iter) and any(isinstance(c, ast.Call) and call_attr(c) == 'kill' for c in ast.walk(e.node))]
     ctx.ob('C08.R4', sd, 'loop greenlets are killed', bool(kills), 'no kill of the loop greenlets', 'the loops must stop using the closed socket')
     loops = [e.node for e in ev if e.kind in ('for_iter', 'for_done') and '_tag_map' in U(e.node.iter)]
     ups = [e for e in ev if e.kind == 'call' and call_attr(e.node) == 'AsyncProcessResponseMessage']
@@ -352,5 +353,5 @@ def r5(ctx):
   for ev, ex in enum_paths(ctx, op):
     fs = FACTS(ev)
     if ('msg_type==MessageType.Rping', True) in fs:
-      seen['rping'] = any(e.kind == 'call' and U(e.node.func) == 'ar.set' for e in ev)
+      seen['rping'] = any(e.kind == 'call' and call_attr(e.node) == 'set' and not e.node.args and resolved_text(ev, i, e.node.func.value) == 'self._ping_ar' for i, e in enumerate(ev))
   ctx.ob('C08.R5', op, 'an Rping completes the outstanding ping', seen.get('rping', False), 'ping response handling changed', why)
